@@ -150,7 +150,35 @@ def metamorphic(suite, prop):
     return viol, {"kind": "bounded metamorphic stand-in (testing, not proof)", "covers": target, "claim": claim, "bound": bound, "cases": head["cases"], "failures": head["failures"]}
 
 
+def model_conformance():
+    """the trusted token model (prelude/tokens.rs) against the real quote runtime: tests the trusted base, proves nothing"""
+    import json
+    import os
+    import subprocess
+    verif = os.path.dirname(os.path.dirname(os.path.abspath(__file__)))
+    recs, err = replay_inputs([])
+    exe = os.path.join(verif, "build", "replay-target", "release", "model_conformance")
+    if recs is None or not os.path.exists(exe):
+        return {"kind": "conformance test of the trusted token model", "skipped": err or "binary missing"}, None
+    p = subprocess.run([exe], capture_output=True, text=True, timeout=120)
+    lines = p.stdout.strip().split("\n")
+    head = json.loads(lines[0]) if lines and lines[0].startswith("{") else {"cases": 0, "failures": -1}
+    bad = None
+    if head["failures"] != 0:
+        bad = "the token model of prelude/tokens.rs disagrees with the real quote runtime: " + "; ".join(lines[1:4])
+    return {"kind": "conformance test of the trusted token model against the real quote runtime (testing)", "cases": head["cases"], "failures": head["failures"]}, bad
+
+
 def run(prop, tier):
+    r = _run(prop, tier)
+    rep, bad = model_conformance()
+    r.setdefault("report", {})["token_model_conformance"] = rep
+    if bad:
+        r["undecided"] = bad
+    return r
+
+
+def _run(prop, tier):
     if prop in ("C13", "C04"):
         v, rep = metamorphic("c13", prop)
         return {"violations": v, "report": {"front_end_spellings": rep}}
